@@ -200,8 +200,6 @@ def sameSeries (a b : Series) : Bool := a.name == b.name && sameLabels a.labels 
 def hasPreimageCollision (ds : List Series) : Bool :=
   ds.any (fun a => ds.any (fun b => !sameSeries a b && tsidPreimage a == tsidPreimage b))
 
-def isSuffixOf (suf s : String) : Bool := s.endsWith suf
-
 def hasDup' : List String → Bool
   | [] => false
   | x :: r => r.contains x || hasDup' r
@@ -223,7 +221,6 @@ def classes (ds : List Series) (q : Query) (sel : List (Series × List (Nat × N
   let c7 := match q.agg with
     | none => []
     | some a =>
-      (if a.mode == .by && sel.any (fun (s, _) => a.labels.any (fun b => s.keys.any (fun k => k != b && isSuffixOf b k))) then ["by-label-suffix-of-other-key"] else []) ++
       (if a.mode != .none && sel.any (fun (s, _) => (groupKey a s).isEmpty) then ["empty-group-key"] else [])
   c1 ++ c2 ++ c3 ++ c4 ++ c5 ++ c6 ++ c6b ++ c7
 
